@@ -225,13 +225,22 @@ def c_eval_keys(c):
         return Exists([t], And(t >= 0, t < n, Select(insts(ev, t), x_)))
 
     def other_is_rest(table, ev, n):
+        """table["Other"] == All minus everything evaluated so far, stated as three E-matching
+        friendly facts: (R1) evaluated instances are disjoint from Other, (R2) whatever of the
+        universe is not in Other is covered by an evaluated instance, (R3) Other is within U."""
         oth = ex.map_get(table, OTHER)
-        return And(Select(table.dom, OTHER), Select(table.dom, ALL), ex.map_get(table, ALL).ref == all0.ref, is_invset(oth), oth.ref != NULL,
-                   seteq(full(c, oth), lambda x_: Select(U.arr, x_)),
-                   seteq(inst(c, oth), lambda x_: And(Select(U.arr, x_), Not(union_upto(ev, n, x_)))))
+        O = inst(c, oth)
+        A1 = arrs_of(ev)[1]
+        R1 = ForAll([t, e], Implies(And(t >= 0, t < n, Select(Select(A1, t), e)), Not(Select(O.arr, e))), patterns=[Select(Select(A1, t), e)])
+        R2 = ForAll([e], Implies(And(Select(U.arr, e), Not(Select(O.arr, e))), union_upto(ev, n, e)), patterns=[Select(O.arr, e)])
+        R3 = ForAll([e], Implies(Select(O.arr, e), Select(U.arr, e)), patterns=[Select(O.arr, e)])
+        return [("table", And(Select(table.dom, OTHER), Select(table.dom, ALL), ex.map_get(table, ALL).ref == all0.ref, is_invset(oth), oth.ref != NULL)),
+                ("universe", seteq(full(c, oth), lambda x_: Select(U.arr, x_))), ("R1.evaluated_disjoint_from_Other", R1), ("R2.rest_is_covered", R2), ("R3.Other_within_universe", R3)]
 
     # --- postconditions --------------------------------------------------------------------------------
-    c.post("Other_is_what_no_evaluated_key_covers", lambda res: other_is_rest(res["symbol_table"], res["evaluated"], res["evaluated"].n))
+    for k_ in range(5):
+        nm_ = ["table", "universe", "R1.evaluated_disjoint_from_Other", "R2.rest_is_covered", "R3.Other_within_universe"][k_]
+        c.post(f"Other_is_what_no_evaluated_key_covers.{nm_}", lambda res, k_=k_: other_is_rest(res["symbol_table"], res["evaluated"], res["evaluated"].n)[k_][1])
     c.post("every_instance_within_the_universe", lambda res: ForAll([t, e], Implies(And(t >= 0, t < res["evaluated"].n, Select(insts(res["evaluated"], t), e)), Select(U.arr, e))))
     # the key `Other`, evaluated last, is exactly the tensors no other key covers: with it, the keys cover All
     c.post("a_key_Other_makes_the_keys_cover_All", lambda res: Implies(And(others.n == 1, key(items, at(others, 0)) == OTHER),
@@ -243,7 +252,7 @@ def c_eval_keys(c):
         ev, table, order = L.v("evaluated"), L.v("symbol_table"), L.seq
         o = Const("fo", Ref)
         out = [("evaluated_so_far", ev.n == L.k),
-               ("Other_is_the_rest", other_is_rest(table, ev, L.k)),
+               *[("Other_is_the_rest." + n_, f_) for n_, f_ in other_is_rest(table, ev, L.k)],
                ("instances_within_universe", ForAll([t, e], Implies(And(t >= 0, t < L.k, Select(insts(ev, t), e)), Select(U.arr, e)))),
                ("table_keeps_its_keys", ForAll([e], Implies(Select(table0.dom, e), Select(table.dom, e)))),
                ("entries_other_than_Other_unchanged", ForAll([e], Implies(And(Select(table0.dom, e), e != OTHER), ex.map_get(table, e).ref == ex.map_get(table0, e).ref)))]
